@@ -74,27 +74,29 @@ theorem Tracker.run_spec : ∀ (refs : List Ref) (t t' : Tracker), t.Nodup → T
 
 namespace Dep
 
-def verts (g : G) : List String := g.map Prod.fst
+variable {α : Type} [DecidableEq α]
+
+def verts (g : G α) : List α := g.map Prod.fst
 
 /-- every edge points at a vertex (what `newGraph` builds) -/
-def Closed (g : G) : Prop := ∀ v c, c ∈ children g v → c ∈ verts g
+def Closed (g : G α) : Prop := ∀ v c, c ∈ children g v → c ∈ verts g
 
-inductive Reach (g : G) : String → String → Prop where
-  | refl (a : String) : Reach g a a
-  | step {a b c : String} : b ∈ children g a → Reach g b c → Reach g a c
+inductive Reach (g : G α) : α → α → Prop where
+  | refl (a : α) : Reach g a a
+  | step {a b c : α} : b ∈ children g a → Reach g b c → Reach g a c
 
 /-- `v` reaches a vertex that lies on a cycle -/
-def CanLoop (g : G) (v : String) : Prop :=
+def CanLoop (g : G α) (v : α) : Prop :=
   ∃ w, Reach g v w ∧ ∃ x, x ∈ children g w ∧ Reach g x w
 
-theorem CanLoop.child {g : G} {v : String} (h : CanLoop g v) : ∃ c, c ∈ children g v ∧ CanLoop g c := by
+theorem CanLoop.child {g : G α} {v : α} (h : CanLoop g v) : ∃ c, c ∈ children g v ∧ CanLoop g c := by
   obtain ⟨w, hvw, x, hx, hxw⟩ := h
   cases hvw with
   | refl => exact ⟨x, hx, _, hxw, x, hx, hxw⟩
   | step hb hbw => exact ⟨_, hb, w, hbw, x, hx, hxw⟩
 
-theorem searchChildren_ne_ok (search : List String → String → R) (path : List String) :
-    ∀ (cs : List String), (∃ c, c ∈ cs ∧ ∀ p, search p c ≠ .ok) → searchChildren search path cs ≠ .ok
+theorem searchChildren_ne_ok (search : List α → α → R α) (path : List α) :
+    ∀ (cs : List α), (∃ c, c ∈ cs ∧ ∀ p, search p c ≠ .ok) → searchChildren search path cs ≠ .ok
   | [], h => by obtain ⟨c, hc, _⟩ := h; cases hc
   | name :: rest, h => by
     obtain ⟨c, hc, hs⟩ := h
@@ -113,7 +115,7 @@ theorem searchChildren_ne_ok (search : List String → String → R) (path : Lis
         exact fun e => hr (e ▸ rfl)
 
 /-- a search started anywhere that can reach a cycle never answers "no cycle" -/
-theorem searchCycle_ne_ok (g : G) : ∀ (fuel : Nat) (path : List String) (v : String),
+theorem searchCycle_ne_ok (g : G α) : ∀ (fuel : Nat) (path : List α) (v : α),
     CanLoop g v → searchCycle g fuel path v ≠ .ok
   | 0, _, _, _ => by unfold searchCycle; intro h; cases h
   | fuel + 1, path, v, h => by
@@ -121,8 +123,8 @@ theorem searchCycle_ne_ok (g : G) : ∀ (fuel : Nat) (path : List String) (v : S
     obtain ⟨c, hc, hl⟩ := h.child
     exact searchChildren_ne_ok _ path _ ⟨c, hc, fun p => searchCycle_ne_ok g fuel p c hl⟩
 
-theorem searchChildren_ne_fuel (search : List String → String → R) (path : List String) :
-    ∀ (cs : List String), (∀ name ∈ cs, name ∉ path → search (path ++ [name]) name ≠ .outOfFuel) →
+theorem searchChildren_ne_fuel (search : List α → α → R α) (path : List α) :
+    ∀ (cs : List α), (∀ name ∈ cs, name ∉ path → search (path ++ [name]) name ≠ .outOfFuel) →
       searchChildren search path cs ≠ .outOfFuel
   | [], _ => by unfold searchChildren; intro h; cases h
   | name :: rest, h => by
@@ -140,7 +142,7 @@ theorem searchChildren_ne_fuel (search : List String → String → R) (path : L
         simp_all
 
 /-- the search terminates: the path is duplicate-free and made of vertices, so `|V| + 1` levels suffice -/
-theorem searchCycle_ne_fuel (g : G) (hg : Closed g) : ∀ (fuel : Nat) (path : List String) (v : String),
+theorem searchCycle_ne_fuel (g : G α) (hg : Closed g) : ∀ (fuel : Nat) (path : List α) (v : α),
     path.Nodup → (∀ x ∈ path, x ∈ verts g) → (verts g).length - path.length < fuel →
       searchCycle g fuel path v ≠ .outOfFuel
   | 0, _, _, _, _, hf => by omega
@@ -160,7 +162,7 @@ theorem searchCycle_ne_fuel (g : G) (hg : Closed g) : ∀ (fuel : Nat) (path : L
     simp only [List.length_append, List.length_singleton]
     omega
 
-theorem checkFrom_ne_fuel (g : G) (fuel : Nat) : ∀ (vs : List String),
+theorem checkFrom_ne_fuel (g : G α) (fuel : Nat) : ∀ (vs : List α),
     (∀ v ∈ vs, searchCycle g fuel [v] v ≠ .outOfFuel) → checkFrom g fuel vs ≠ .outOfFuel
   | [], _ => by unfold checkFrom; intro h; cases h
   | v :: rest, h => by
@@ -172,7 +174,7 @@ theorem checkFrom_ne_fuel (g : G) (fuel : Nat) : ∀ (vs : List String),
       intro e
       simp_all
 
-theorem checkFrom_ne_ok (g : G) (fuel : Nat) : ∀ (vs : List String),
+theorem checkFrom_ne_ok (g : G α) (fuel : Nat) : ∀ (vs : List α),
     (∃ v ∈ vs, searchCycle g fuel [v] v ≠ .ok) → checkFrom g fuel vs ≠ .ok
   | [], h => by obtain ⟨_, hv, _⟩ := h; cases hv
   | v :: rest, h => by
